@@ -10,7 +10,7 @@ Statically decided clauses:
      decode_symbol impls are {InvalidData} (range), {OutOfCompressedData} (chain), none (ANS)    (R2)
 Not decided: absence of arithmetic panics, termination of the quantizer search, symbol in support.
 """
-from vlib import sym, rules, effects
+from vlib import sym, rules, effects, anchors, pow2
 
 DEC = 'stream::Decode'
 POW_P = lambda t: t[0] == 'bin' and t[1] == 'Shl' and ((t[2][0] == 'k' and t[2][1] == 'one') or t[2] == sym.mk_int(1)) and t[3] == ('c', 'PRECISION')
@@ -173,10 +173,178 @@ def _first_decision_is_bound_guard(b):
     return False
 
 
+def _mentions_field(t, name):
+    for x in sym.subterms(t):
+        if isinstance(x, tuple) and x and x[0] == 'in' and any(isinstance(e, tuple) and e[0] == 'f' and e[1] == name for e in x[1]):
+            return True
+    return False
+
+
+def check_state_ctor_threshold(ctx, F):
+    """The public constructor of the range coder state (reached from from_raw_parts with untrusted parts) must reject every
+    range below the threshold the coding steps maintain; otherwise `scale = range >> PRECISION` can be zero and decoding
+    divides by it.  Both thresholds are canonicalised to `x < 2^E` (vlib/pow2.py) and the exponents compared."""
+    RCS = 'stream::queue::RangeCoderState'
+    key = 'R10/ctor-threshold/' + RCS
+    role = 'state constructor rejects every range below the renormalisation threshold'
+    ctor = anchors.method(F, RCS, 'new')
+    if ctor is None:
+        ctx.unresolved('R10', role, RCS, 'constructor not found', key=key)
+        return
+    # reference: "range < 2^E  => renormalise" in the coding steps
+    ref = []
+    for adt, trait, name in ((anchors.RDEC, 'stream::Decode', 'decode_symbol'), (anchors.RENC, 'stream::Encode', 'encode_symbol')):
+        m = anchors.method(F, adt, name, trait)
+        if m is None:
+            continue
+        ctx.touch(m)
+        ev, paths = rules.evaluate(m)
+        for r in paths or []:
+            for t, v, _ in r.preds:
+                c = pow2.below_pow2(t, v)
+                if c is not None and _mentions_field(c[0], 'range') and not _mentions_field(c[0], 'point'):
+                    ref.append((pow2._exp_key(c[1]), c[1], m.defpath))
+    exps = {k: e for k, e, _ in ref}
+    if len(exps) != 1:
+        ctx.unresolved('R10', role, RCS, '%d distinct renormalisation thresholds found in the coding steps' % len(exps), key=key)
+        return
+    E_ref = list(exps.values())[0]
+    ctx.touch(ctor)
+    ev, paths = rules.evaluate(ctor)
+    fidx = [i for i, f in enumerate(F.adts[RCS]['variants'][0]['fields']) if f['name'] == 'range']
+    verdicts = []
+    for r in paths or []:
+        if r.end != 'return' or r.ret is None:
+            continue
+        ok = r.ret[0] == 'agg' and r.ret[1][-1] == 'Ok'
+        if not ok:
+            continue
+        inner = r.ret[2][0]
+        if not (inner[0] == 'agg' and fidx):
+            verdicts.append(('unres', 'returned value is not a literal struct'))
+            continue
+        rng = inner[2][fidx[0]]
+        args = {x for x in sym.subterms(rng) if isinstance(x, tuple) and x and x[0] == 'arg'}
+        if len(args) != 1:
+            verdicts.append(('unres', 'range field does not come from one argument'))
+            continue
+        arg = list(args)[0]
+        bits = lambda x: pow2.bits_of(F.ty_s(ctor.local_ty(x[1]))) if (isinstance(x, tuple) and x[0] == 'arg') else None
+        best = None
+        seen_other = False
+        for t, v, _ in r.preds:
+            c = pow2.below_pow2(t, v, bits)
+            if c is None:
+                if any(x == arg for x in sym.subterms(t)):
+                    seen_other = True
+                continue
+            if c[0] != arg or c[2]:
+                continue
+            # on this path: not (arg < 2^E)
+            d = pow2.exp_cmp(c[1], E_ref)
+            if d is None:
+                seen_other = True
+            elif best is None or d > best:
+                best = d
+        if best is not None and best >= 0:
+            verdicts.append(('ok', 'accepts only range >= 2^(%s)' % sym.affine_str(E_ref)))
+        elif seen_other:
+            verdicts.append(('unres', 'a test of the range argument has an unrecognised shape'))
+        elif best is not None:
+            verdicts.append(('bad', 'accepts every range >= 2^(%s %+d), i.e. also ranges below the threshold 2^(%s) that encode_symbol/decode_symbol maintain; with PRECISION == Word::BITS and State::BITS == 2*Word::BITS decoding with such a state computes scale = range >> PRECISION = 0 and divides by it' % (
+                sym.affine_str(E_ref), best, sym.affine_str(E_ref))))
+        else:
+            verdicts.append(('bad', 'accepts a range without comparing it with the threshold 2^(%s) that encode_symbol/decode_symbol maintain' % sym.affine_str(E_ref)))
+    if not verdicts:
+        ctx.unresolved('R10', role, RCS, 'no accepting path found', key=key)
+    elif any(v[0] == 'bad' for v in verdicts):
+        ctx.bad('R10', role, RCS, [v[1] for v in verdicts if v[0] == 'bad'][0], key=key, loc=rules.loc(ctor))
+    elif any(v[0] == 'unres' for v in verdicts):
+        ctx.unresolved('R10', role, RCS, [v[1] for v in verdicts if v[0] == 'unres'][0], key=key)
+    else:
+        ctx.ok('R10', role, RCS, '%d accepting path(s): %s; reference threshold from %d renormalisation tests' % (len(verdicts), verdicts[0][1], len(ref)), key=key)
+
+
+ORD = ('Lt', 'Le', 'Gt', 'Ge')
+
+
+def check_wrapping_search_steps(ctx, F):
+    """A search position that is advanced by a wrapping step and then range-checked must also be wrap-checked.
+
+    Instance: a path on which a loop-carried local L ends as W = L (+/-).w s, and W is order-compared with a bound that is
+    not one of its own operands (so W is used as an ordered quantity).  Obligation: the same path orders W against L with
+    the no-wrap outcome (L <= W for +, W <= L for -).  Without it a wrapped candidate that happens to lie inside the bound
+    is accepted and the search of the decoder model jumps to the other end of the symbol type (wrong symbol or no
+    termination).  Instances are found over all DecoderModel::quantile_function bodies; floor = the two quantizer searches."""
+    n_inst = 0
+    for b in F.bodies:
+        if b.promoted is not None or b.name != 'quantile_function' or b.dk != 'AssocFn' or '::tests::' in b.defpath:
+            continue
+        if not b.defpath.startswith('<'):
+            continue
+        try:
+            ev, paths = rules.evaluate(b)
+        except sym.TooManyPaths:
+            paths = None
+        if not paths:
+            continue
+        ctx.touch(b)
+        inst = {}
+        for r in paths:
+            for k, W in r.store.items():
+                if not (len(k) == 1 and isinstance(W, tuple) and W and W[0] == 'bin' and W[1] in ('Add.w', 'Sub.w')):
+                    continue
+                own = [o for o in W[2:4] if isinstance(o, tuple) and o[0] == 'loop' and o[-1] == k]
+                if len(own) != 1:
+                    continue
+                L = own[0]
+                if W[1] == 'Sub.w' and W[2] != L:
+                    continue
+                bound_cmp = wrap_ok = False
+                for t, v, _ in r.preds:
+                    if not (isinstance(t, tuple) and t and t[0] == 'bin' and t[1].split('.')[0] in ORD):
+                        continue
+                    a, c = t[2], t[3]
+                    if W not in (a, c):
+                        continue
+                    other = c if a == W else a
+                    op = t[1].split('.')[0]
+                    if other == L:
+                        # normalise to  lo <= hi  /  lo < hi  being `v`
+                        lo, hi = (a, c) if op in ('Lt', 'Le') else (c, a)
+                        want = (lo == L and hi == W) if W[1] == 'Add.w' else (lo == W and hi == L)
+                        if want and v:
+                            wrap_ok = True
+                        if (not want) and (not v) and op in ('Lt', 'Gt'):
+                            wrap_ok = True      # not (W < L)  ==  L <= W
+                    elif other not in W[2:4]:
+                        bound_cmp = True
+                if not bound_cmp:
+                    continue
+                key = (b.defpath, W[1], k)
+                cur = inst.get(key, True)
+                inst[key] = cur and wrap_ok
+        for (dp, op, k), ok in sorted(inst.items()):
+            n_inst += 1
+            direction = 'upward' if op == 'Add.w' else 'downward'
+            okey = 'R2/wrap-checked-step/%s/%s' % (dp, direction)
+            role = 'range-checked wrapping search step is also wrap-checked'
+            if ok:
+                ctx.ok('R2', role, dp, '%s search: every path that adopts the wrapped candidate compares it with the previous position' % direction, key=okey)
+            else:
+                ctx.bad('R2', role, dp, '%s search adopts `position %s step` after comparing it only with the support bound: a candidate that wrapped around the symbol type and landed inside the support is accepted, '
+                        'so the search moves the wrong way (wrong symbol, or it never terminates)' % (direction, '+' if op == 'Add.w' else '-'), key=okey, loc=rules.loc(b))
+    if n_inst < 2:
+        ctx.unresolved('R2', 'range-checked wrapping search step is also wrap-checked', 'stream::model::quantize', 'only %d instances found (2 confirmed by reading: upward and downward search of the leaky quantizer)' % n_inst,
+                       key='R2/wrap-checked-step/floor')
+
+
 def run(ctx):
     F = ctx.F
     check_coders(ctx, F)
+    check_wrapping_search_steps(ctx, F)
     check_models(ctx, F)
+    check_state_ctor_threshold(ctx, F)
     ctx.assume('models honour DecoderModel: quantile_function is total for quantile < 2^PRECISION')
     return {
         'level': 'other',
